@@ -449,6 +449,21 @@ def sendfileOp (g : Cfg) (s : S) (off len : Nat) (ks : List KAns) : S × Ret :=
   (ghost r.1 (s.edgeDue || (!s.hung && !s.closed && s.wl.isEmpty && sendfileRefused (sendRange g off len) ks))
     (s.early || isEarly s), r.2)
 
+/-- the kernel's answers as `Sendfile` acts on them when dup(2) of the source descriptor fails: a refused
+    request (EAGAIN, or the exhausted script) can not be queued and is fatal like any other error -/
+def denyDup1 : KAns → KAns
+  | .eagain => .fail
+  | k => k
+def denyDup (ks : List KAns) : List KAns := ks.map denyDup1 ++ [.fail]
+
+/-- `Sendfile` while dup(2) fails (descriptor table full). Behind a backlog the call fails before it queues
+    anything and the conn stays as it is; on the direct path it is `Sendfile` with the answers `denyDup ks`
+    (fixed code: the conn is closed with the error instead of dropping the remainder). No new `Op`: the call is
+    a stutter or the op `.sendfile off len (denyDup ks)`, see `sendfileNoDup_step`. -/
+def sendfileNoDupOp (g : Cfg) (s : S) (off len : Nat) (ks : List KAns) : S × Ret :=
+  if !s.hung && !s.closed && sendRange g off len != 0 && !s.wl.isEmpty then (s, ⟨0, .io⟩)
+  else sendfileOp g s off len (denyDup ks)
+
 /-- EPOLL_CTL_ADD reports the current readiness -/
 def registerOp (g : Cfg) (s : S) : S :=
   ghost (register g s) (s.edgeDue || (!s.hung && !s.reg && !s.closed)) s.early
